@@ -117,6 +117,10 @@ class MultiTypeMap(dict):
         self.dispatch_id = count()
         self.all = {}
         self.errors = {}
+        # Code of a method as rewritten for an earlier table -> its code in
+        # this one (a method that was running while the table was rebuilt
+        # continues with call_next from where it stands)
+        self.aliases = {}
 
     def mro(self, obj_t_tup):
         specificities = {}
@@ -410,6 +414,9 @@ class MultiTypeMap(dict):
     def _missing(self, obj_t_tup):
         if obj_t_tup and isinstance(obj_t_tup[0], CodeType):
             real_tup = obj_t_tup[1:]
+            current = self.aliases.get(obj_t_tup[0])
+            if current is not None:
+                return self[(current, *real_tup)]
             self[real_tup]
             if obj_t_tup[0] not in self.all[real_tup]:
                 return self[real_tup]
